@@ -41,6 +41,7 @@ from hpl.ast.predicates import (
     predicate_from_expression,
 )
 from hpl.ast.properties import HplProperty, HplScope
+from hpl.types import DataType
 
 ###############################################################################
 # Constants
@@ -1127,7 +1128,8 @@ def _simplify_function_min(call: HplFunctionCall) -> HplExpression:
 def _obviously_different(a: HplExpression, b: HplExpression) -> bool:
     # assume arguments have been simplified
     if _obvious_negatives(a, b):
-        return True
+        # (not p) is never equal to p, but (-x) is equal to x when x is zero
+        return a.data_type == DataType.BOOL and b.data_type == DataType.BOOL
     if isinstance(a, HplBinaryOperator):
         op: BinaryOperatorDefinition = a.operator
         # non-commutative operators keep literals on the LHS, e.g., (1 - x)
@@ -1135,21 +1137,7 @@ def _obviously_different(a: HplExpression, b: HplExpression) -> bool:
             if a.operand1 == b and isinstance(a.operand2, HplLiteral):
                 assert a.operand2.value != 0  # due to simplification
                 return True
-        if op.is_times:
-            if a.operand1 == b and isinstance(a.operand2, HplLiteral):
-                assert a.operand2.value != 0  # due to simplification
-                assert a.operand2.value != 1  # due to simplification
-                return True
-        if op.is_division:
-            if a.operand1 == b and isinstance(a.operand2, HplLiteral):
-                assert a.operand2.value != 0  # due to simplification
-                assert a.operand2.value != 1  # due to simplification
-                return True
-        if op.is_power:
-            if a.operand1 == b and isinstance(a.operand2, HplLiteral):
-                assert a.operand2.value != 0  # due to simplification
-                assert a.operand2.value != 1  # due to simplification
-                return True
+        # (x * 2), (x / 2) and (x ** 2) are all equal to x when x is zero
     return False
 
 
